@@ -25,6 +25,7 @@ type pathCase struct {
 	lextras bool // some of the additional files are symbolic links
 	join    bool // the input reaches the command through a joined in-port ({i:in|join: })
 	stream  bool // the process also has a streaming out-port (consumed by a second process)
+	sextras bool // the additional files have names with blanks and shell metacharacters (the tool chooses those names)
 	tagged  bool // the input carries three tags (a tagging component sits in front of the process)
 	dangle  bool // a dangling symbolic link (left by an earlier run whose target is gone) sits at the declared output path
 }
@@ -64,7 +65,7 @@ func oddSegment(p string) bool {
 func c13(args []string) {
 	c := chk.New("C13", "exploration", args)
 	c.Build(false)
-	c.Rule("[additional files whose destination exists: two consecutive tasks creating a side file of the same name, and a second run over a stale side file - the file of the latest task is the one that stays] (every fifth plain case carries an extension spec on the out-port placeholder, {o:out|.dat}, beside its SetOut pattern; a family of cases has a tagging component in front so that the input carries three tags) one-task workflows, one child per case, each in a fresh directory three levels below its scratch root: the output path and the input path are drawn from the grammar prefix {'', ./, ../, ../../, ABS/} x 0-2 directory segments {d, d.x, a-b_c, 0, ..., d.., ..d, __parent__, __fsroot__, x__parent__y, .hid} x file names {f, f.txt, .h, f..g, __parent__, a__fsroot__b, ..x} (thorough: every grammar path as output and as input; quick: a sample) plus random long paths, input paths that leave a symlinked directory with '..' (a decoy file sits at the lexically cleaned path) additional files that are symbolic links, inputs that reach the command through a joined in-port (absolute / parent-relative members), processes that have a streaming out-port beside the judged file output, and a dangling symbolic link already sitting at the declared output path; destination directories of ../ and absolute outputs are pre-created, sub-directories of the working directory are not; one case in five is a Go function interpreting the same protocol in-process, a further set are Go functions that write through the documented OutIP(port).Write() API; half of the command cases create additional files (one in a not yet existing sub-directory, one sorting after it); oracle: after exit 0 the unique content written at the output placeholder is found at exactly clean(wd/P) (or P if absolute) and nowhere else below the scratch root, the command could read its input through the input placeholder, every additional file is at the same relative place under the working directory. distinct_nontrivial = distinct (output path, input path, extras, command/Go function) cases that ran to completion")
+	c.Rule("[additional files whose destination exists: two consecutive tasks creating a side file of the same name, and a second run over a stale side file - the file of the latest task is the one that stays] (every fifth plain case carries an extension spec on the out-port placeholder, {o:out|.dat}, beside its SetOut pattern; a family of cases has a tagging component in front so that the input carries three tags; a family has additional files with blanks and shell metacharacters in their names) one-task workflows, one child per case, each in a fresh directory three levels below its scratch root: the output path and the input path are drawn from the grammar prefix {'', ./, ../, ../../, ABS/} x 0-2 directory segments {d, d.x, a-b_c, 0, ..., d.., ..d, __parent__, __fsroot__, x__parent__y, .hid} x file names {f, f.txt, .h, f..g, __parent__, a__fsroot__b, ..x} (thorough: every grammar path as output and as input; quick: a sample) plus random long paths, input paths that leave a symlinked directory with '..' (a decoy file sits at the lexically cleaned path) additional files that are symbolic links, inputs that reach the command through a joined in-port (absolute / parent-relative members), processes that have a streaming out-port beside the judged file output, and a dangling symbolic link already sitting at the declared output path; destination directories of ../ and absolute outputs are pre-created, sub-directories of the working directory are not; one case in five is a Go function interpreting the same protocol in-process, a further set are Go functions that write through the documented OutIP(port).Write() API; half of the command cases create additional files (one in a not yet existing sub-directory, one sorting after it); oracle: after exit 0 the unique content written at the output placeholder is found at exactly clean(wd/P) (or P if absolute) and nowhere else below the scratch root, the command could read its input through the input placeholder, every additional file is at the same relative place under the working directory. distinct_nontrivial = distinct (output path, input path, extras, command/Go function) cases that ran to completion")
 	c.Assume("scratch root, working directory and absolute area are on one file system", "paths with a directory segment ending in '..' (fixed defect 133a9ef: '../' was matched as a substring) carry their own signature suffix so that a regression there is told apart from other failures")
 	rng := c.Rand("c13")
 	g := c13Grammar()
@@ -138,6 +139,10 @@ func c13(args []string) {
 	for k := 0; k < c.Pick(16, 60); k++ {
 		cases = append(cases, pathCase{out: []string{"d/o.txt", "../o.txt", "ABS/x/o.txt", "d.x/0/o.txt", "ABS/o.txt", "./a-b_c/o.txt"}[k%6], in: "i.txt", stream: true, extras: k%4 == 3})
 	}
+	// additional files whose names contain blanks and shell metacharacters
+	for k := 0; k < c.Pick(4, 12); k++ {
+		cases = append(cases, pathCase{out: []string{"o.txt", "d/e/o.txt", "../o.txt", "ABS/x/o.txt"}[k%4], in: "i.txt", sextras: true, gof: k%3 == 2})
+	}
 	// inputs that carry several tags (the task identity, hence its working directory, depends on them)
 	for k := 0; k < c.Pick(8, 24); k++ {
 		cases = append(cases, pathCase{out: []string{"o.txt", "d/e/o.txt", "../o.txt", "ABS/x/o.txt"}[k%4], in: []string{"i.txt", "d/i.txt", "../up/i.txt"}[k%3], tagged: true, extras: k%2 == 0, gof: k%5 == 4})
@@ -182,6 +187,11 @@ func c13(args []string) {
 			}
 			opts["extra"] = strings.Join(extras, ",")
 		}
+		var behav vproto.Behaviours
+		if pc.sextras {
+			extras = []string{"run 1.log", "a&b.txt", "semi;colon.txt", "it's.txt", "star*.txt", "sub dir/x y.log", "-dash.txt", "$HOME.txt", "z_last.txt"}
+			behav = vproto.Behaviours{"P": {"extra": strings.Join(extras, ",")}} // (through the behaviours file: the names cannot be written on a command line unquoted)
+		}
 		s.Procs = append(s.Procs, &spec.Proc{Name: "src", Kind: spec.KFileSource, Files: []string{in}},
 			&spec.Proc{Name: "P", Kind: kind, WriteAPI: pc.wapi, Cmd: spec.BuildCmd("P", []spec.PortDecl{{Name: "in"}}, []spec.PortDecl{{Name: "out"}}, nil, nil, opts), Outs: []*spec.Out{{Port: "out", Pattern: out}}})
 		s.Conns = append(s.Conns, &spec.Conn{From: "src.out", To: "P.in"})
@@ -214,10 +224,10 @@ func c13(args []string) {
 			s.Dirs = append(s.Dirs, "store/proj/data")
 			s.Sources = map[string]string{"store/proj/ref/i.txt": "input of case\n", "ref/i.txt": "DECOY at the lexically cleaned path\n"}
 		}
-		cs := &run.Case{Root: root, Bin: c.Bin, Spec: s, WdRel: wdRel, Env: map[string]string{"SCIPIPE_BUFSIZE": "4"}}
+		cs := &run.Case{Root: root, Bin: c.Bin, Spec: s, WdRel: wdRel, Behav: behav, Env: map[string]string{"SCIPIPE_BUFSIZE": "4"}}
 		c.Eval(1)
 		res := cs.Run()
-		desc := map[string]interface{}{"output_path": pc.out, "input_path": pc.in, "extras": pc.extras, "gofunc": pc.gof, "write_api": pc.wapi, "input_through_symlinked_dir": pc.link, "symlink_extras": pc.lextras, "joined_input": pc.join, "streaming_port_beside": pc.stream, "dangling_symlink_at_output_path": pc.dangle, "input_with_three_tags": pc.tagged, "spec": s}
+		desc := map[string]interface{}{"output_path": pc.out, "input_path": pc.in, "extras": pc.extras, "gofunc": pc.gof, "write_api": pc.wapi, "input_through_symlinked_dir": pc.link, "symlink_extras": pc.lextras, "joined_input": pc.join, "streaming_port_beside": pc.stream, "dangling_symlink_at_output_path": pc.dangle, "input_with_three_tags": pc.tagged, "additional_files_with_special_names": pc.sextras, "spec": s}
 		known := oddSegment(pc.out) || oddSegment(pc.in)
 		sigSfx := ""
 		if known {
@@ -292,7 +302,7 @@ func c13(args []string) {
 			c.Violation("file-not-at-declared-path"+sigSfx, fmt.Sprintf("output path %q, input path %q: %s", pc.out, pc.in, strings.Join(ps, "; ")), desc)
 			return
 		}
-		c.Nontrivial(fmt.Sprintf("%s|%s|%v|%v|%v|%v|%v", pc.out, pc.in, pc.extras, pc.gof, pc.wapi, pc.link, pc.lextras) + fmt.Sprintf("|%v|%v|%v|%v|%d", pc.join, pc.stream, pc.dangle, pc.tagged, i%6))
+		c.Nontrivial(fmt.Sprintf("%s|%s|%v|%v|%v|%v|%v", pc.out, pc.in, pc.extras, pc.gof, pc.wapi, pc.link, pc.lextras) + fmt.Sprintf("|%v|%v|%v|%v|%v|%d", pc.join, pc.stream, pc.dangle, pc.tagged, pc.sextras, i%6))
 		c.Count("cases_go_function_write_api", map[bool]int{true: 1, false: 0}[pc.wapi])
 		c.Count("cases_with_additional_files", map[bool]int{true: 1, false: 0}[pc.extras])
 		if i%80 == 0 {
